@@ -10,7 +10,8 @@ from bycycle.burst.utils import check_min_burst_cycles
 ID = 'C08'
 TITLE = 'Minimum-run filter removes exactly the short bursts'
 RULE = ('enum: every boolean array of length 1..L (L=12 quick, 16 thorough) x every min_n_cycles in 0..len+1; '
-        'hyp: boolean arrays built from drawn run lengths up to length ~400 with k<=50 (ints, floats, numpy ints); '
+        'hyp: boolean arrays built from drawn run lengths up to length ~400 with k<=50 (ints, floats, numpy ints), one in ten with '
+        'tens of thousands of cycles and k in 300..2500; arrays returned by earlier calls are re-checked after later calls; '
         'thorough only: atheris / libFuzzer coverage-guided fuzzing of the same check body (bytes -> bits, k; empty corpus). '
         'Oracle: groupby run filter (differential) + direct predicates (same length, no False->True, every maximal '
         'run kept iff len>=k, idempotent). Non-trivial: the array holds a run >= k and a run < k, or a run '
@@ -57,8 +58,21 @@ def as_layout(arr, layout):
     return arr.copy()
 
 
+HELD = []        # (result array of an earlier call, what it must still be): results handed out stay valid
+
+
+def expand_bits(case):
+    if 'runs' in case:                       # compact form for very long arrays
+        bits, v = [], case['first']
+        for r in case['runs']:
+            bits.extend([int(v)] * r)
+            v = not v
+        return bits
+    return case['bits']
+
+
 def check(case, rec):
-    bits = case['bits']
+    bits = expand_bits(case)
     k = case['k']
     if case.get('ktype') == 'float':
         k = float(k)
@@ -72,25 +86,30 @@ def check(case, rec):
     if out.dtype != bool:
         raise Violation('dtype', str(out.dtype))
     if (out & ~orig).any():
-        raise Violation('false-became-true', 'bits=%s k=%s out=%s' % (bits, k, out.astype(int).tolist()))
+        raise Violation('false-became-true', 'bits=%s k=%s' % (bits[:60], k))
     runs = runs_of(orig)
     for a, b in runs:
         seg = out[a:b]
         if b - a >= k and not seg.all():
-            raise Violation('long-run-cleared', 'run [%d,%d) k=%s bits=%s out=%s' % (a, b, k, bits, out.astype(int).tolist()))
+            raise Violation('long-run-cleared', 'run [%d,%d) k=%s len=%d bits[:60]=%s' % (a, b, k, len(bits), bits[:60]))
         if b - a < k and seg.any():
-            raise Violation('short-run-kept', 'run [%d,%d) k=%s bits=%s out=%s' % (a, b, k, bits, out.astype(int).tolist()))
+            raise Violation('short-run-kept', 'run [%d,%d) k=%s len=%d bits[:60]=%s' % (a, b, k, len(bits), bits[:60]))
     exp = ref_runs(orig, k)
     if not np.array_equal(out, exp):
-        raise Violation('differs-from-reference', 'bits=%s k=%s' % (bits, k))
+        raise Violation('differs-from-reference', 'len=%d k=%s bits[:60]=%s' % (len(bits), k, bits[:60]))
     again = guarded(check_min_burst_cycles, as_layout(np.array(out, dtype=bool), case.get('layout', 'c')), min_n_cycles=k)
     if not np.array_equal(again, out):
-        raise Violation('not-idempotent', 'bits=%s k=%s' % (bits, k))
+        raise Violation('not-idempotent', 'len=%d k=%s' % (len(bits), k))
+    for old_out, old_exp in HELD:
+        if not np.array_equal(old_out, old_exp):
+            raise Violation('earlier-result-changed-by-later-call', 'an array returned by an earlier call changed when the function was called again (k=%s, len=%d)' % (k, len(orig)))
+    del HELD[:-1]
+    HELD.append((out, exp.copy()))
     lens = [b - a for a, b in runs]
     edge_short = any((a == 0 or b == len(orig)) and b - a < k for a, b in runs)
     edge_long = any((a == 0 or b == len(orig)) and b - a >= k for a, b in runs)
     mixed = any(n >= k for n in lens) and any(n < k for n in lens)
-    rec.label('layout:' + case.get('layout', 'c'), 'k=0' if k == 0 else 'k>0', 'edge-run' if (edge_short or edge_long) else 'no-edge-run',
+    rec.label('huge' if len(bits) > 5000 else 'small', 'layout:' + case.get('layout', 'c'), 'k=0' if k == 0 else 'k>0', 'edge-run' if (edge_short or edge_long) else 'no-edge-run',
               'mixed' if mixed else 'unmixed', 'empty' if not lens else 'has-runs')
     rec.nontrivial(mixed or edge_short)
 
@@ -110,6 +129,11 @@ def enum(tier, shard, nshards):
 def strategy(tier):
     @st.composite
     def s(draw):
+        if draw(st.integers(0, 9)) == 0:
+            # very long recordings with long minimum runs (tens of thousands of cycles)
+            runs = draw(st.lists(st.one_of(st.integers(1, 40), st.integers(300, 3000)), min_size=5, max_size=40))
+            k = draw(st.one_of(st.integers(300, 2500), st.sampled_from(sorted(set(runs)))))
+            return {'runs': runs, 'first': draw(st.booleans()), 'k': k, 'ktype': 'int', 'layout': 'c'}
         runs = draw(st.lists(st.integers(1, 60), min_size=1, max_size=25))
         first = draw(st.booleans())
         bits, v = [], first
